@@ -288,20 +288,29 @@ func copySet(s map[string]bool) map[string]bool {
 
 // procStateFresh registers the obligations of the rule under the given property rule name.
 func procStateFresh(c *Ctx, rule string) {
-	res := procStateAnalyse(c, "(*router.scionPacketProcessor).processPkt")
+	procStateFreshFor(c, rule, "(*router.scionPacketProcessor).processPkt", "scionPacketProcessor", 8)
+}
+
+// slowPathStateFresh: the same for the slow-path processor (SCMP generation).
+func slowPathStateFresh(c *Ctx, rule string) {
+	procStateFreshFor(c, rule, "(*router.slowPathPacketProcessor).processPacket", "slowPathPacketProcessor", 4)
+}
+
+func procStateFreshFor(c *Ctx, rule, root, label string, minFields int) {
+	res := procStateAnalyse(c, root)
 	if res == nil {
 		return
 	}
-	c.Min("per-packet-fields", len(res.Fields), 8)
+	c.Min(label+":per-packet-fields", len(res.Fields), minFields)
 	if len(res.Violation) == 0 {
-		c.OK(rule, "scionPacketProcessor:per-packet-state", 0, fmt.Sprintf(
-			"%d loads of the %d per-packet fields (%s) in %d methods reachable from processPkt: each field is assigned for the current packet before it is read",
-			res.Reads, len(res.Fields), strings.Join(res.Fields, ", "), res.Funcs))
+		c.OK(rule, label+":per-packet-state", 0, fmt.Sprintf(
+			"%d loads of the %d per-packet fields (%s) in %d methods reachable from %s: each field is assigned for the current packet before it is read",
+			res.Reads, len(res.Fields), strings.Join(res.Fields, ", "), res.Funcs, root))
 		return
 	}
 	for _, v := range res.Violation {
 		parts := strings.SplitN(v, ":", 2)
-		c.Fail(rule, "scionPacketProcessor:per-packet-state:"+v, res.Pos[v],
-			"field "+parts[1]+" is read in "+parts[0]+" on a path from processPkt on which nothing assigned it for the current packet: the value left by the previous packet is used")
+		c.Fail(rule, label+":per-packet-state:"+v, res.Pos[v],
+			"field "+parts[1]+" is read in "+parts[0]+" on a path from "+root+" on which nothing assigned it for the current packet: the value left by the previous packet is used")
 	}
 }
